@@ -1212,19 +1212,41 @@ def c11(ctx):
             cases.append(case("C11", "gort", "go", sub=dict(T=dict(k="slice", e=[RT]), V=dict(k="slice", e=[val, val]), via=via), origin="recursive type in a slice"))
             cases.append(case("C11", "gort", "go", sub=dict(T=dict(k="struct", f=[dict(name="P", tname="", opts=[], t=dict(k="ptr", e=[RT])), dict(name="Q", tname="", opts=[], t=dict(k="int"))]),
                                                                V=dict(k="struct", f=[dict(k="ptr", e=[val]), I(1)]), via=via), origin="recursive type behind a field"))
+    # histories of refused and supported self-referential types through ONE iterator / ONE unfolder (their registries
+    # keep what earlier operations compiled): every shape over the type, in every order of two, with supported controls
+    def N(tid):
+        return dict(k="named", id=tid)
+
+    def shapes(T):
+        return [T, dict(k="ptr", e=[T]), dict(k="ptr", e=[dict(k="ptr", e=[T])]), dict(k="slice", e=[T]), dict(k="map", e=[dict(k="ptr", e=[T])]),
+                dict(k="struct", f=[dict(name="P", tname="", opts=[], t=dict(k="ptr", e=[T])), dict(name="Q", tname="", opts=[], t=dict(k="int"))])]
+    good = shapes(N("RecNode"))[:4] + shapes(N("RecTree"))[:1] + shapes(N("RecTree"))[3:4]
+    for tid in ("RecBadNode", "RecBadTree", "RecBadMap", "RecBadMix"):
+        bad = shapes(N(tid))
+        seqs = [[a, b] for a in bad for b in bad] + [[a, g, b] for a in bad[:3] for g in good for b in bad[1:4]]
+        seqs += [[g, a, g2] for g in good[:3] for a in bad for g2 in good[1:5]] + [bad + good + bad[::-1] + good[::-1]]
+        if not ctx.quick:
+            seqs += [[a, b, c] for a in bad for b in bad for c in bad + good]
+        for ops in seqs:
+            cases.append(case("C11", "refuseseq", "go", sub=dict(ops=ops), origin="history of refused and supported self-referential types"))
     number(cases)
     tf, st = core.run_harness(ctx, cases)
     failed, nv = core.tlc_validate(ctx, "TraceCodec", tf)
     return run.decide(
         ctx, "TraceCodec", cases, tf, failed, nv, level_note="",
-        rule="the TLC-enumerated (type, value) programs of GenGoType (see C12) plus self-referential named types (lists of 1-8 nodes, trees "
+        rule="histories (kind refuseseq): self-referential types with a member of an unsupported kind (chan, func, complex128; one of them "
+             "referring to supported self-referential types first) and supported controls, as T, *T, **T, []T, map[string]*T and behind a "
+             "struct field, in every order of two (thorough: three) through ONE iterator and ONE unfolder and through fresh ones - "
+             "TraceCodec!RefuseSeqVerdict requires an error (never a crash, never acceptance) exactly for the types SFGoType!TypeHasRefusal "
+             "marks, independent of what was compiled before. Then "
+             "the TLC-enumerated (type, value) programs of GenGoType (see C12) plus self-referential named types (lists of 1-8 nodes, trees "
              "with slice and map-of-pointer children; alone, in a slice, behind a pointer field), each folded and "
              "unfolded into a fresh variable of the same type directly and through the JSON, UBJSON and CBOR encoder+parser, with the "
              "unfolder's key cache off and (every 4th program, and slices of maps with recurring member names) on with capacities 0-8; "
              "TraceCodec!GoRtVerdict compares the reflection-projected result with the original through SFGoType!RoundTripOK (value "
              "equality with nil/empty identified, never-reported fields zero) and requires refusal-by-error for unsupported kinds. "
              "Distinct = distinct (type, value, transport); non-trivial = struct types.",
-        nontrivial=lambda c: c["sub"]["T"]["k"] in ("struct", "named"),
+        nontrivial=lambda c: c["kind"] == "refuseseq" or c["sub"]["T"]["k"] in ("struct", "named"),
         assumptions=TCB + ["documented transport limits are not judged: non-finite floats via JSON, integers above MaxInt64 via UBJSON"])
 
 def model_unfold(ctx):
